@@ -21,3 +21,7 @@ ARR(h8, H8, target_hll_type::HLL_8)
 WRAP H8* w_h8_from_h4(const H4* a) { try { return new H8(*a); } catch (...) { return nullptr; } }
 WRAP H6* w_h6_from_h4(const H4* a) { try { return new H6(*a); } catch (...) { return nullptr; } }
 WRAP H4* w_h4_from_h8(const H8* a) { try { return new H4(*a); } catch (...) { return nullptr; } }
+// C04 (unit level): the register merge the union gadget (always HLL_8) performs for an HLL-mode input of any width and any lg_k >= its own
+WRAP int w_h8_merge_h8(H8* dst, const H8* src) { try { dst->H8::mergeHll(*src); return 0; } catch (...) { return 1; } }
+WRAP int w_h8_merge_h6(H8* dst, const H6* src) { try { dst->H8::mergeHll(*src); return 0; } catch (...) { return 1; } }
+WRAP int w_h8_merge_h4(H8* dst, const H4* src) { try { dst->H8::mergeHll(*src); return 0; } catch (...) { return 1; } }
